@@ -4,6 +4,42 @@ from .frontend import walk, children, strip, strip_parens, qtype
 from .expr import canon, var_init, int_value
 
 
+# Repo functions that return one of their pointer parameters unchanged (or NULL): name -> parameter index.
+# Filled by register_identity_functions(prog); lets `origins` look through small pass-through helpers.
+IDENTITY_FUNCS = {}
+
+
+def register_identity_functions(prog):
+    IDENTITY_FUNCS.clear()
+    for f in prog.funcs.values():
+        if not f.rettype.rstrip().endswith('*'):
+            continue
+        rets = [r for r in f.cfg.returns() if children(r.ast)]
+        if not rets:
+            continue
+        idx = None
+        ok = True
+        for r in rets:
+            e = strip(children(r.ast)[0])
+            if e.get('kind') == 'IntegerLiteral':
+                continue
+            if e.get('kind') == 'DeclRefExpr' and (e.get('_ref') or ('',))[0] == 'param':
+                i = e['_ref'][3]
+                # the parameter must not be reassigned inside the function
+                reassigned = any(x.get('kind') == 'BinaryOperator' and x.get('opcode') == '=' and
+                                 strip(children(x)[0]).get('kind') == 'DeclRefExpr' and
+                                 (strip(children(x)[0]).get('_ref') or ('', None))[1] == e['_ref'][1] for x in walk(f.body))
+                if reassigned or (idx is not None and idx != i):
+                    ok = False
+                    break
+                idx = i
+            else:
+                ok = False
+                break
+        if ok and idx is not None and idx >= 0:
+            IDENTITY_FUNCS[f.name] = idx
+
+
 class Def:
     __slots__ = ('id', 'var', 'node', 'rhs', 'kind', 'line')
 
@@ -243,6 +279,8 @@ def origins(rd, node_id, e, prog=None, depth=0, seen=None):
             return {'fresh:%s' % e.get('_line')}
         if nm == 'realloc':
             return {'fresh:%s' % e.get('_line')}
+        if nm in IDENTITY_FUNCS and IDENTITY_FUNCS[nm] + 1 < len(children(e)):
+            return origins(rd, node_id, children(e)[1 + IDENTITY_FUNCS[nm]], prog, depth, seen)
         if nm in ('strchr', 'strrchr', 'strstr', 'strpbrk', 'memchr', 'strcpy', 'strncpy', 'memcpy', 'memmove',
                   'strcat', 'qstrtrim', 'qstrtrim_head', 'qstrtrim_tail', 'qstrupper', 'qstrlower', 'qstrcpy',
                   'qstrncpy', 'qstrunchar', 'qstrrev'):
